@@ -79,7 +79,12 @@ def classify_line(line: str, n_extra: int):
     if all(c.isspace() for c in line):
         return ("ambig", "exotic blank line")
     if any(_exotic(c) for c in line):
-        # exotic whitespace/control characters: silent
+        # exotic whitespace / control characters: readers may differ on whether they separate fields. The line is
+        # malformed under EVERY reading when, even with all Unicode whitespace taken as separators, it has fewer than
+        # seven fields or a field Python cannot read as a number (a lone Ctrl-Z, say); otherwise it is ambiguous.
+        wide = line.split()
+        if len(wide) < 7 or not all(_python_numeric(t) for t in wide[:7]):
+            return ("bad", "exotic characters and not a data row under any reading")
         return ("ambig", "exotic character")
     toks = line.split()  # only ' ' and '\t' can be present here
     need = 7 + n_extra
